@@ -93,20 +93,36 @@ class VDec(Val):
     """A finite decimal.Decimal as an exact rational (assumption A-DEC)."""
     pycls = decimal.Decimal
 
-    def __init__(self, t):
+    def __init__(self, t, neg=None):
+        self.py = t if isinstance(t, decimal.Decimal) else None   # concrete Decimal incl. its exponent
+        if isinstance(t, decimal.Decimal) and neg is None:
+            neg = bool(t.is_signed())
         if isinstance(t, (int, decimal.Decimal)):
             t = z3.RealVal(str(t))
         self.t = t
+        # sign bit (only observable for zero: Decimal('-0')); default: value < 0
+        if neg is None:
+            neg = t < 0
+        self.neg = z3.BoolVal(neg) if isinstance(neg, bool) else neg
 
     def rep(self):
         return decimal.Decimal(1)
 
     @property
     def conc(self):
+        if self.py is not None:
+            return self.py
         c = _num_conc(self.t)
         if c is NOTCONC:
             return c
-        return decimal.Decimal(c)
+        d = decimal.Decimal(c)
+        if d == 0:
+            n = z3.simplify(self.neg)
+            if z3.is_true(n):
+                return decimal.Decimal('-0')
+            if not z3.is_false(n):
+                return NOTCONC
+        return d
 
     def __repr__(self):
         return f'VDec({self.t})'
